@@ -9,7 +9,7 @@ from datetime import datetime as dt
 
 from pyvc import regexc
 from pyvc.api import *  # noqa: F401,F403
-from pyvc.harness import harness
+from pyvc.harness import harness, native
 from ramses_tx import exceptions as exc
 from ramses_tx import helpers as H
 from ramses_tx import packet as _packet
@@ -42,12 +42,16 @@ PAIRS = [(str(code), verb) for code in CODES_SCHEMA for verb in VERBS if lengths
 # decide in the budget (0418 fault-log entry, 3220 OpenTherm frame): outside the generator's
 # reach.  They get the *bounded* native stand-in `outside_reach_payloads_native` (never counted
 # as proved) and are listed in the evidence.
-OUTSIDE_REACH = {"1030": "7^5 table look-ups", "31DA": "29 independent optional fields", "2411": "parameter schema table",
+OUTSIDE_REACH = {"1030": "7^5 table look-ups", "2411": "parameter schema table",
                  "0418": "fault-log entry: solver time", "3220": "OpenTherm frame: struct.unpack, >64-bit operations"}
+# 31DA (18 independent field decoders: 2^18+ paths when inlined) is decided MODULARLY instead: every field decoder
+# under its own contract (field_decoder_contract), parser_31da / Message against those contracts
+# (parser_31da_is_the_merge_of_its_fields, hvac_state_decodes_or_is_rejected).
+MODULAR = {"31DA"}
 
 
 def _in_reach(code, verb, n):
-    return code not in OUTSIDE_REACH or (verb == "RQ" and n <= 3)
+    return (code not in OUTSIDE_REACH and code not in MODULAR) or (verb == "RQ" and n <= 3)
 
 
 ALL_CASES = [(code, verb, n, shape) for code, verb in PAIRS for n in lengths(code, verb) for shape in SHAPES]
@@ -359,3 +363,109 @@ def decode_path_is_pure():
         out.append((f"{modname}: no cached function returns a mutable value", not bad_cache, "; ".join(bad_cache)))
         out.append((f"{modname}: no function mutates a module-level container", not bad_mut, "; ".join(bad_mut)))
     return out
+
+
+# ---- 31DA, modularly: eighteen field decoders, each under its own contract --------------------------------
+from ramses_tx import parsers as _parsers  # noqa: E402
+
+# the field decoders parser_31da calls, with the slice of the payload each is given
+FIELDS_31DA = [("parse_exhaust_fan_speed", 38, 40), ("parse_fan_info", 36, 38), ("parse_air_quality", 2, 6), ("parse_co2_level", 6, 10),
+               ("parse_indoor_humidity", 10, 12), ("parse_outdoor_humidity", 12, 14), ("parse_exhaust_temp", 14, 18),
+               ("parse_supply_temp", 18, 22), ("parse_indoor_temp", 22, 26), ("parse_outdoor_temp", 26, 30), ("parse_capabilities", 30, 34),
+               ("parse_bypass_position", 34, 36), ("parse_supply_fan_speed", 40, 42), ("parse_remaining_mins", 42, 46),
+               ("parse_post_heater", 46, 48), ("parse_pre_heater", 48, 50), ("parse_supply_flow", 50, 54), ("parse_exhaust_flow", 54, 58)]
+REJECTS = (AssertionError, ArithmeticError, AttributeError, LookupError, NotImplementedError, TypeError, ValueError)  # what Message._validate maps to PacketInvalid
+
+
+BITMASK_FIELDS = ("parse_capabilities",)  # a 16-way independent bit filter: 2^16 paths symbolically; decided exhaustively instead
+
+
+@harness(("C05", "C01"), cases=[(name, hi - lo) for name, lo, hi in FIELDS_31DA if name not in BITMASK_FIELDS])
+def field_decoder_contract(name, width):
+    """Each HVAC field decoder of helpers.py that parser_31da (and 12C8 / 1298 / 12A0 / 31D9 / 22F7 ...) calls,
+    on EVERY hex string of the width it is given there: it returns a str-keyed dict of plain JSON values with
+    ratios within 0..1 and temperatures on the wire range, or raises one of the errors Message._validate
+    turns into PacketInvalid -- nothing else."""
+    v = sym_str("field", width, "HEX")
+    o = outcome(getattr(H, name), v)
+    check(Or(o.ok, o.raised_in(REJECTS)), "[C01] a field decoder returns, or raises an error that rejects the packet, nothing else")
+    if o.ok:
+        cover("decoded")
+        check(isinstance(o.value, dict) and json_able(o.value), "[C05] a field decodes to a dict of plain JSON data")
+        check(ranges_ok(o.value), "[C05] its ratios are within 0..1 and its temperatures within the wire range")
+
+
+def _field_callsite(name):
+    def spec(value):
+        """Recording call-site contract of a field decoder: some dict (a marker entry), or a rejecting error."""
+        ghost("field_calls").append((name, value))
+        if sym_bool("rejected_by_" + name):
+            raise AssertionError(name)
+        return {"_from_" + name: value}
+    spec.__name__ = name + "_callsite"
+    spec.__doc__ = f"{name} by its contract (field_decoder_contract): a dict of plain JSON data, or a rejecting error"
+    return spec
+
+
+FIELD_CALLSITES = {getattr(H, name): _field_callsite(name) for name, _, _ in FIELDS_31DA}
+
+
+@harness(("C05", "C01"), cases=[(29,), (30,)], stubs={getattr(_parsers, n): FIELD_CALLSITES[getattr(H, n)] for n, _, _ in FIELDS_31DA})
+def parser_31da_is_the_merge_of_its_fields(n):
+    """parser_31da on any 29/30-byte payload, with every field decoder replaced by its contract: each decoder is
+    called once, on its own slice of the payload and of exactly the width its contract was proved for; the result
+    is the union of what they return; it raises only when one of them does.  With field_decoder_contract this
+    gives: an I/RP|31DA decodes to plain JSON data with ratios / temperatures in range, or is rejected."""
+    payload = sym_str("payload", 2 * n, "HEX")
+    o = outcome(_parsers.parser_31da, payload, opaque("msg"))
+    calls = ghost("field_calls")
+    if o.ok:
+        check(len(calls) == len(FIELDS_31DA), "every field decoder is called exactly once")
+        for (name, lo, hi), (cname, cval) in zip(FIELDS_31DA, calls):
+            check(And(cname == name, cval == payload[lo:hi]), "each field decoder is given its own slice of the payload, of the width its contract covers")
+        check(And(isinstance(o.value, dict), len(o.value) == len(FIELDS_31DA)), "the decoded payload is the union of the fields' dicts")
+        for name, lo, hi in FIELDS_31DA:
+            check(o.value.get("_from_" + name) == payload[lo:hi], "and holds each field's entries")
+    else:
+        check(isinstance(o.exc, AssertionError) and len(calls) >= 1, "parser_31da raises only what a field decoder raised")
+
+
+@native("C05")
+def bitmask_field_decoders_exhaustive(seed, n):
+    """parse_capabilities on EVERY 4-hex-digit word (65 536 inputs: the whole domain, run natively -- its result
+    is a 16-way independent bit filter, 2^16 symbolic paths): a dict of plain JSON data or a rejecting error.
+    Complete for this finite domain, but an enumeration, not an SMT proof."""
+    fails, evals = [], 0
+    for name in BITMASK_FIELDS:
+        f = getattr(H, name)
+        for w in range(0x10000):
+            evals += 1
+            v = f"{w:04X}"
+            try:
+                r = f(v)
+                ok = isinstance(r, dict) and json_able(r) and ranges_ok(r) is True
+            except REJECTS:
+                ok = True
+            except BaseException:  # noqa: BLE001
+                ok = False
+            if not ok:
+                fails.append({"label": f"{name} returns plain JSON data or a rejecting error", "witness": {"seed": seed, "field": v}})
+                break
+    return {"evaluations": evals, "failures": fails}
+
+
+@harness(("C01", "C05"), cases=[c for c in ALL_CASES if c[0] == "31DA" and not _in_reach(*c[:3])],
+         stubs={getattr(_parsers, n): FIELD_CALLSITES[getattr(H, n)] for n, _, _ in FIELDS_31DA}, subst={_packet.pkt_lifespan: pkt_lifespan_may_raise})
+def hvac_state_decodes_or_is_rejected(code, verb, n, shape):
+    """The message-level clause for 31DA (outside the reach of payload_decodes_or_is_rejected), with the field
+    decoders by contract: Message(Packet(frame)) is a message whose payload is the fields' entries (plus nothing
+    that is not plain JSON), or PacketInvalid -- nothing else."""
+    payload, frame = sym_frame(code, verb, n, shape)
+    p = outcome(Packet.from_port, NOW, "000 " + frame)
+    assume(p.ok)
+    m = outcome(Message, p.value)
+    check(Or(m.ok, m.raised_in(exc.PacketInvalid)), "[C01] a packet decodes to a message or is rejected with PacketInvalid, nothing else")
+    if m.ok:
+        cover("decoded")
+        check(json_able(m.value.payload), "[C05] the decoded payload is plain JSON data")
+        check(all(m.value.payload.get("_from_" + name) == payload[lo:hi] for name, lo, hi in FIELDS_31DA), "[C05] and carries every field's entries")
